@@ -97,6 +97,8 @@ var st struct {
 	// goroutines that existed when the scheduler was installed (harness only)
 	baseGoroutines int
 	foreignSeen    bool
+	foreignStart   int64 // value of foreign when this pass began
+	grace          int   // real-time patience spent before declaring a deadlock
 	// solo mode
 	solo       bool
 	soloYields int64
@@ -207,6 +209,7 @@ func decide(site int) (int32, int32, bool, bool) {
 	st.yields++
 	st.perTask[st.cur]++
 	st.blockedStreak = 0
+	st.grace = 0
 	if site >= 0 && site < MaxSites {
 		st.siteSeen[site]++
 	}
@@ -293,6 +296,17 @@ func decideBlocked(site int) (int32, int32, bool, bool, bool, bool) {
 			slow = true
 		}
 	} else if next < 0 || st.blockedStreak > 20000 {
+		// Every live task is waiting and no foreign goroutine has shown itself. One may exist all
+		// the same (a worker of a pool started by an earlier pass that was handed a job a moment
+		// ago and has not reached a yield point yet): the operation is retried for a quarter of
+		// a second of real time before the pass is declared deadlocked.
+		if st.grace < 250 {
+			st.grace++
+			st.yields--
+			st.perTask[st.cur]--
+			time.Sleep(time.Millisecond)
+			return me, me, false, false, true, false
+		}
 		st.over = true
 		st.deadlock = true
 		return 0, 0, false, true, true, false
@@ -312,7 +326,7 @@ func decideBlocked(site int) (int32, int32, bool, bool, bool, bool) {
 //
 //go:norace
 func foreignPossible() bool {
-	if st.foreign > 0 || st.foreignSeen {
+	if st.foreign > st.foreignStart || st.foreignSeen {
 		return true
 	}
 	expected := st.baseGoroutines + 1
@@ -431,6 +445,8 @@ func setup(n int, cfg Config) {
 	st.blockedStreak = 0
 	st.parkedBlocked = [MaxTasks]bool{}
 	st.foreignSeen = false
+	st.foreignStart = st.foreign
+	st.grace = 0
 	st.yields, st.switches = 0, 0
 	st.perTask = [MaxTasks]int64{}
 	st.stepBudget = cfg.StepBudget
@@ -488,6 +504,7 @@ func Run(cfg Config, tasks []func()) ([]interface{}, Stats) {
 		panic("sched: bad task count")
 	}
 	pans := make([]interface{}, n)
+	setBase(runtime.NumGoroutine()) // harness goroutines, and whatever earlier passes left behind
 	setup(n, cfg)
 	var wg sync.WaitGroup
 	for i := 0; i < n; i++ {
